@@ -378,3 +378,46 @@ func debugRegistry(c *Ctx) {
 		fmt.Printf("%-34s %-8s table=%-18s formals=%v impl=%s body=%v %s\n", e.Key(), e.Kind, e.Table, e.Formals, impl, ok, e.Problem)
 	}
 }
+
+// followForwarder: when the implementation body of a registered builtin is a pure forwarder —
+// its only statement is `return g(…)` with g a declared function of the same package (has-key and
+// may-have-key merged into `keyConstraint(env, args, required bool)`) — the body that implements the
+// builtin is g's, with g's boolean parameters that receive constants bound to them.  Followed up to
+// three hops; returns the body and unit given when it is no forwarder.
+func (c *Ctx) followForwarder(body *ast.BlockStmt, u FuncUnit) (*ast.BlockStmt, FuncUnit, map[types.Object]bool) {
+	flags := map[types.Object]bool{}
+	for hop := 0; hop < 3; hop++ {
+		if body == nil || len(body.List) != 1 {
+			break
+		}
+		rs, ok := body.List[0].(*ast.ReturnStmt)
+		if !ok || len(rs.Results) != 1 {
+			break
+		}
+		ce, ok := ast.Unparen(rs.Results[0]).(*ast.CallExpr)
+		if !ok {
+			break
+		}
+		info := u.Pkg.TypesInfo
+		g := originOf(Callee(info, ce))
+		if g == nil || u.Obj == nil || g.Pkg() != u.Obj.Pkg() {
+			break
+		}
+		gd := c.declOf[g]
+		if gd == nil || gd.Body == nil {
+			break
+		}
+		gu := FuncUnit{g, gd, c.pkgOf[gd]}
+		ps := paramObjs(gu)
+		for i, a := range ce.Args {
+			if i >= len(ps) {
+				break
+			}
+			if tv, ok := info.Types[a]; ok && tv.Value != nil && tv.Value.Kind() == constant.Bool {
+				flags[ps[i]] = constant.BoolVal(tv.Value)
+			}
+		}
+		body, u = gd.Body, gu
+	}
+	return body, u, flags
+}
